@@ -72,6 +72,10 @@ type Observation struct {
 	// ArbitraryWindow: some SKIP / LIMIT cut through rows whose order is unspecified (no ORDER BY and the rows are
 	// not all equal, or an ORDER BY with ties among differing rows): WHICH rows pass is unspecified.
 	ArbitraryWindow bool
+
+	// CollectOrderOpen: some collect() gathered at least two different values into one list: the order of the list
+	// elements is the unspecified order of the row stream.
+	CollectOrderOpen bool
 }
 
 // Unsupported is returned for model constructs outside the implemented fragment. It is never a
